@@ -103,9 +103,46 @@ def shard_send_shapes(args):
     return col
 
 
+def shard_resend(args):
+    """Two-step histories: a roStorySend, then the same story sent again with the same
+    elements in another interleaving (a paragraph moved across an item), with padded
+    text, or with one attribute / text changed.  The second one must arrive as sent."""
+    import itertools
+    from vlib.build import E, T, P
+    import vlib.build as B
+    from vlib.findings import Collector
+    col = Collector(PROP)
+    ro_xml = gen.ro_with_layout(['S0', 'S1'], 'mixed')
+
+    def body_of(order, pad=''):
+        a = B.mk_item('J0', slug='first' + pad)
+        a.tag = 'storyItem'
+        b = B.mk_item('J1', slug='second')
+        b.tag = 'storyItem'
+        parts = {'p1': P('para one' + pad), 'p2': P('(note)'), 'a': a, 'b': b,
+                 'o': E('other', text='t', attrib={'z': '1'})}
+        return [parts[k] for k in order]
+    base = ('p1', 'a', 'p2', 'b', 'o')
+    orders = [o for o in itertools.permutations(base) if o != base][::7]
+    n = 0
+    for sid in ('S0', 'S1'):
+        first = B.tostring(B.envelope(B.story_send('RO1', sid, head=[T('storySlug', 'sent')],
+                                                   body=body_of(base)), 3000))
+        seconds = [body_of(o) for o in orders] + [body_of(base, pad=' '), body_of(base, pad='\n')]
+        for k, body in enumerate(seconds):
+            second = B.tostring(B.envelope(B.story_send('RO1', sid, head=[T('storySlug', 'sent')],
+                                                        body=body), 3001 + k))
+            for ev in history.replay_history([ro_xml, first, second]):
+                record(col, ev)
+            n += 1
+    col.scopes.append(f'roStorySend twice: {n} re-sends of the same elements in another interleaving / with padded text')
+    return col
+
+
 def run(tier, seed, procs):
     quick = tier == 'quick'
     cols = drive.pool_map(shard_send_shapes, [None], 1)
+    cols += drive.pool_map(shard_resend, [None], 1)
     kw = dict(kinds=KINDS, faults='none', rich=True, degenerate=False, min_stories=1)
     shards, per = (8, 500) if quick else (16, 20000)
     cols += drive.pool_map(drive.shard_hyp_steps,
